@@ -41,7 +41,7 @@ REGISTRY = dict(
     note=("Trusted: Coq 8.16.1 kernel (vm_compute, no native_compute), translate/py2coq.py + specs/vecenv.py, harness/c01.py + scripted_envs.py, Python/numpy/gymnasium/multiprocessing. "
           "Tied by correspondence only (not translated): the loops over env_idx / remotes, _save_obs/_obs_from_buf/_stack_obs/dict_to_obs per-kind plumbing, "
           "seed()'s list comprehension, the `if options` guard of reset(). Quick tier runs SubprocVecEnv with start method fork only (forkserver/spawn in thorough). "
-          "All C01 theorems are closed under the global context (no axioms)."),
+          "Findings: none for C01 (the reward-dtype finding F10, signature reward-dtype-float32-vs-float64, belongs to C02). All C01 theorems are closed under the global context (no axioms)."),
     technique="machine-checked proof in Coq (induction over op lists, generic sub-environment) + regenerated-fragment interface lemmas + differential correspondence + statement oracle",
 )
 
